@@ -143,6 +143,11 @@ func c03Run(ci any) Result {
 		if c.Routes[first.Hid].Method == routeNotFound {
 			tags = append(tags, "custom-404-route")
 		}
+		// "a request whose path is matched only by routes for other methods is answered 405": the handler of a
+		// route registered for another method must not run
+		if m := c.Routes[first.Hid].Method; m != routeNotFound && m != c.Req.Method {
+			fail(fmt.Sprintf("handler of %s %q ran for a %s request", m, c.Routes[first.Hid].Path, c.Req.Method))
+		}
 		// "a request whose path no registered pattern matches is answered 404": a handler must not run for it
 		anyLiberal := false
 		for _, r := range c.Routes {
